@@ -17,6 +17,18 @@ var (
 	c15Paths   = []string{"", "/", "/a", "/a/", "/a/b", "/a/inbox", "/outbox/b", "/a%20b", "/a%2Fb", "/~u", "/a/Likes", "/users/someone/notes/1"}
 )
 
+func init() {
+	// scale: long segments and many segments (owners 64, 300 and 1100 bytes long, 17 and 33 segments)
+	deep := func(n int) string {
+		var b strings.Builder
+		for i := 0; i < n; i++ {
+			fmt.Fprintf(&b, "/s%d", i)
+		}
+		return b.String()
+	}
+	c15Paths = append(c15Paths, "/"+strings.Repeat("u", 50), "/"+strings.Repeat("u", 300), "/users/"+strings.Repeat("v", 1100), deep(17), deep(33), deep(33)+"/")
+}
+
 func c15LastSegmentIsName(p string) bool {
 	p = strings.TrimRight(p, "/")
 	seg := p
@@ -34,12 +46,12 @@ func c15LastSegmentIsName(p string) bool {
 func init() {
 	engine.Register(&engine.Check{
 		ID: "C15", Name: "collection-iris", Level: "model_checking",
-		Rule: "owners = scheme{http,https} x host{e.com,E.com,e.com:8080} x 12 paths (root, trailing slash, nested, percent-escapes, segments that are collection names) x the 8 well-known " +
+		Rule: "owners = scheme{http,https} x host{e.com,E.com,e.com:8080} x 18 paths (root, trailing slash, nested, percent-escapes, segments that are collection names, segments of 50/300/1100 bytes, 17 and 33 segments) x the 8 well-known " +
 			"collection names (from the live ActivityPubCollections); holders = *Object/*Actor/Object/Actor with each collection property unset / explicit IRI / explicit embedded collection; " +
 			"complete cross product; non-trivial = owner with a non-empty path or holder with an explicit property",
 		Assumptions: []string{"'equivalent' is IRI.Equals with scheme check (validated separately by C14)", "actors are given a specific actor type (Person/Service)"},
 		Bound: func(string) string {
-			return "complete: 72 owners x 8 names (round trips) + 72 owners (negative) + holder matrix 4 forms x 8 names x 3 states x 6 ids (same in both tiers)"
+			return "complete: 108 owners x 8 names (round trips) + 108 owners (negative) + holder matrix 4 forms x 8 names x 3 states x 6 ids (same in both tiers)"
 		},
 		Shards: 8,
 		Run:    c15Run,
@@ -54,7 +66,7 @@ func c15Run(c *engine.Ctx) {
 				owner := ap.IRI(s + "://" + h + p)
 				for _, name := range names {
 					name, p := name, p
-					class := fmt.Sprintf("C15|roundtrip|path=%s|%s", p, name)
+					class := fmt.Sprintf("C15|roundtrip|path=%s|%s", c14Short(p), name)
 					c.Do(class, func() string { return fmt.Sprintf("owner %s, collection %s", string(owner), name) }, func(t *engine.T) {
 						t.Distinct(p != "")
 						built := ap.IRIf(owner, name)
@@ -90,7 +102,7 @@ func c15Run(c *engine.Ctx) {
 					})
 				}
 				p := p
-				class := fmt.Sprintf("C15|negative|path=%s", p)
+				class := fmt.Sprintf("C15|negative|path=%s", c14Short(p))
 				c.Do(class, func() string { return "owner " + string(owner) + " is not a collection IRI" }, func(t *engine.T) {
 					t.Distinct(p != "")
 					if c15LastSegmentIsName(p) {
